@@ -1624,6 +1624,7 @@ def driver_source(specs, status, src_root):
         generic = any(uses_val(parse_type(t)) for _k, _n, t in order) or uses_val(parse_type(spec.get("ret", "Unit")))
         # a parameter that stands for untranslated code by slot name (`Nat → Option Nat`) comes as a table
         args = " ".join((f"(fun k => ((fromJ (argAt args {i})) : List (Nat × Nat)).lookup k)" if t == "Lean:(Nat → Option Nat)"
+                         else f"(fun k => ((fromJ (argAt args {i})) : List Nat).contains k)" if t == "Lean:(Nat → Bool)"
                          else f"(fromJ (argAt args {i}))") for i, (_k, _n, t) in enumerate(order))
         call = f"Tr.{spec['lean']}" + (" (α := Int)" if generic else "")
         imports.append(f"import FinamModel.Translated.{spec['lean']}")
